@@ -5,6 +5,15 @@ caller (this module does not import sc3 at top level).
 
 Every deviation is recorded as (mechanism key, witness detail); the first one
 stops the program.
+
+Error paths followed by continued use: tasks played with a quant end their
+wake-up in every way a clock has to cope with (plain return, generator running
+off its end, user code raising, StopStream, handing back something that is not
+a delta); what is judged is the event that runs NEXT (the root routine's next
+wake-up, another played task): it must wake on its own second / beat.  PREV_END
+remembers how the event immediately before the current one ended (any clock of
+the process: every event runs under the library lock), so that a deviation
+right after a failed task gets its own mechanism key.
 """
 
 import math
@@ -12,6 +21,23 @@ import math
 from vf import c12_model as M
 from vf import c12_contracts as K
 from vf.common import short_tb, tb_sites
+
+
+PREV_END = ['return']
+
+
+class UserError(Exception):
+    """User code failing inside a scheduled task."""
+
+
+def _take_prev_end():
+    prev = PREV_END[0]
+    PREV_END[0] = 'return'
+    return prev.split(':')[0]
+
+
+def _after(prev):
+    return '' if prev == 'return' else f'/right-after-task-ending-with-{prev}'
 
 
 def quant_qp(spec):
@@ -187,15 +213,19 @@ class Run:
             self.set_expectation(step['delta'])
             yield step['delta']
         self.finished = True
+        PREV_END[0] = 'gen-end'     # this routine runs off its end
 
     def tolb(self, *v):
         return self.model.tol_beats(*v)
 
     def on_wake(self, first):
         clk, mdl = self.clk, self.model
+        prev = _take_prev_end()
         s = clk.seconds
         self.now = s
         self.n('wakeups')
+        if prev != 'return':
+            self.n('wakes_checked_right_after_' + prev)
         ok, b = self.call('beats', lambda: clk.beats)
         if not ok:
             return
@@ -206,8 +236,9 @@ class Run:
                                self.tolb(b), ref_hi=r['ref_hi'])
             self.n('play_first_wakes_checked')
             if why:
-                self.bad(f'C12/play-quant-first-wake/{why[0]}', root=True,
-                         quant=r, woke_at_beat=b, seconds=s, text=why[1])
+                self.bad(f'C12/play-quant-first-wake/{why[0]}' + _after(prev),
+                         root=True, quant=r, woke_at_beat=b, seconds=s,
+                         text=why[1])
                 return
         else:
             opts = self.expect
@@ -215,13 +246,16 @@ class Run:
             self.n('wake_times_checked')
             if not any(abs(s - e) <= tol for e in opts):
                 self.bad('C12/wake/beats-do-not-advance-at-tempo'
-                         + ('/after-beats-setter' if self.beats_set else ''),
-                         woke_at_second=s, expected=opts, tempo=mdl.tempo)
+                         + ('/after-beats-setter' if self.beats_set else '')
+                         + _after(prev),
+                         woke_at_second=s, expected=opts, tempo=mdl.tempo,
+                         woke_at_beat=b)
                 return
         mdl._seen(s, b)
         want = mdl.beats(s)
         if abs(b - want) > self.tolb(b, want):
-            self.bad('C12/map/beats-at-wake', beats=b, model=want, seconds=s)
+            self.bad('C12/map/beats-at-wake' + _after(prev), beats=b,
+                     model=want, seconds=s)
         self.beats_set = False
 
     def set_expectation(self, delta):
@@ -372,24 +406,58 @@ class Run:
     def wake_beat(self):
         return self.wakes[-1][1]
 
-    def op_play(self, spec, how):
+    def op_play(self, spec, how, end='return'):
         sc, clk, mdl = self.sc, self.clk, self.model
         q, p = quant_qp(spec)
-        rec = dict(q=q, p=p, spec=spec, how=how, ref=mdl.beats(self.now),
+        rec = dict(q=q, p=p, spec=spec, how=how, end=end, ref=mdl.beats(self.now),
                    bbb=mdl.base_bar_beat, changes_at_play=self.map_changes,
                    played_at_second=self.now, wake=None, step=self.step_index)
         run = self
+        cls, _, arg = end.partition(':')
+        if how == 'clock.play-function' and cls == 'gen-end':
+            cls = 'return'
+        as_generator = cls in ('gen-end', 'value') or (
+            cls == 'raise' and self.step_index % 2 == 1)
 
-        def child(inval):
-            c = inval[1]
+        def wake(c):
+            rec['prev_end'] = _take_prev_end()
             rec['wake'] = (c.seconds, c.beats, run.map_changes)
+            run.n('played_task_endings_' + cls)
+            PREV_END[0] = cls       # how this event is about to end
 
-        r = sc.Routine(child)
+        def ending():
+            if cls == 'raise':
+                raise {'UserError': UserError}.get(arg) or getattr(
+                    __import__('builtins'), arg)('C12 user code failing')
+            if cls == 'stopstream':
+                raise sc.StopStream
+            if cls == 'value':
+                return {'str': 'later', 'None': None, 'True': True,
+                        'inf': float('inf'), 'list': [1]}[arg]
+            return None
+
+        if how == 'clock.play-function':
+            def child(fn, c):           # Function: (function, clock)[:nargs]
+                wake(c)
+                return ending()
+            task = child
+        elif as_generator:
+            def child(inval):
+                wake(inval[1])
+                v = ending()
+                if cls == 'value':
+                    yield v
+            task = sc.Routine(child)
+        else:
+            def child(inval):
+                wake(inval[1])
+                ending()
+            task = sc.Routine(child)
         qo = self._quant_obj(spec)
         if how == 'routine.play':
-            ok, _ = self.call('play', r.play, clk, qo)
+            ok, _ = self.call('play', task.play, clk, qo)
         else:
-            ok, _ = self.call('play', clk.play, r, qo)
+            ok, _ = self.call('play', clk.play, task, qo)
         if ok:
             self.children.append(rec)
 
@@ -566,12 +634,15 @@ class Run:
             changed = changes != rec['changes_at_play']
             if changed:
                 self.n('play_first_wakes_after_map_change')
+            prev = rec.get('prev_end', 'return')
+            if prev != 'return':
+                self.n('wakes_checked_right_after_' + prev)
             if why:
                 if changed and self.mode == 'nrt':
                     key = ('C12/play-quant-first-wake/'
                            'nrt-map-changed-while-pending')
                 else:
-                    key = f'C12/play-quant-first-wake/{why[0]}'
+                    key = f'C12/play-quant-first-wake/{why[0]}' + _after(prev)
                 self.bad(key, play=_pub(rec), woke_at_beat=b, woke_at_second=s,
                          text=why[1])
 
